@@ -10,6 +10,7 @@ of the Fourier integral, for batches of every small size, both polygon orientati
 """
 from __future__ import annotations
 
+import numpy as np
 import sympy as sp
 
 from pyvc.sym import to_expr
@@ -199,6 +200,21 @@ def polygon_ff(chk):
         chk.record(f"Polygon.ff:one_value_per_wave_vector[{t}]", fkey, "proved" if ok else "refuted", "shape", model={})
         if not ok:
             continue
+        # concretisation cross-check of the engine on a real tilted, offset L-shaped polygon
+        from pyvc import concrete
+        from .common import real_coxeter
+        e1, e2 = np.array([np.cos(0.7), np.sin(0.7), 0.0]), None
+        e2 = np.cross(np.array([0.2, -0.3, 0.9]) / np.linalg.norm([0.2, -0.3, 0.9]), e1)
+        e2 /= np.linalg.norm(e2)
+        Lp = np.array([[0.0, 0], [3, 0], [3, 1], [1, 1], [1, 3], [0, 3]])
+        P3 = np.outer(Lp[:, 0], e1) + np.outer(Lp[:, 1], e2) + np.array([1.5, -0.7, 2.0])
+        realp = real_coxeter().shapes.Polygon(P3, normal=np.cross(e1, e2))
+        Qc = np.array([[0.3, -0.2, 0.5], [2.0, 1.0, -1.5], [0.0, 0.0, 0.0], [1e-7, 0.0, 0.0], [5.0, -4.0, 3.0]])
+        env = concrete.Env(sizes={NV: len(P3), QD: len(Qc)}, arrays={"Vm": P3, "qv": Qc},
+                           scalars={A: float(realp.signed_area), rho: 2.0, **{cen[j]: float(realp.centroid[j]) for j in range(3)},
+                                    **{nm[j]: float(realp.normal[j]) for j in range(3)}})
+        concrete.cross_check(chk, f"Polygon.compute_form_factor_amplitude[{t}]", fkey, to_expr(res.inner[()]), env, (QD,),
+                             realp.compute_form_factor_amplitude(Qc.copy(), density=2.0), rtol=1e-9)
         parts = _split_masked(to_expr(res.inner[()]))
         if parts is None:
             chk.record(f"Polygon.ff:branch_structure[{t}]", fkey, "unknown", "structure", detail=str(to_expr(res.inner[()]))[:200], model={})
